@@ -7,6 +7,7 @@ package chain
 
 import (
 	"encoding/binary"
+	"encoding/json"
 	"fmt"
 	"sort"
 	"strconv"
@@ -14,9 +15,11 @@ import (
 	"testing"
 	"time"
 
+	"go.sia.tech/core/consensus"
 	rhp3 "go.sia.tech/core/rhp/v3"
 	proto4 "go.sia.tech/core/rhp/v4"
 	"go.sia.tech/core/types"
+	"go.sia.tech/coreutils/chain"
 	rhp4 "go.sia.tech/coreutils/rhp/v4"
 	"go.sia.tech/hostd/v2/host/accounts"
 	"go.sia.tech/hostd/v2/host/contracts"
@@ -44,6 +47,7 @@ type world struct {
 	buf   uint64
 	defs  map[int]*cdef
 	order []int
+	mgr   *contracts.Manager // level `mgr`: updates go through contracts.Manager.UpdateChainState with synthetic consensus updates
 	bal   map[int]uint64 // account balances as far as the generator knows (to aim debits below the balance)
 }
 
@@ -62,8 +66,19 @@ func cnum(id types.FileContractID) int { return int(binary.LittleEndian.Uint64(i
 
 func cur(n uint64) types.Currency { return types.NewCurrency64(n) }
 
+var levelMgr bool
+
 func newWorld(t *testing.T, rb, buf uint64) *world {
 	return &world{t: t, st: vhlib.OpenStore(t, t.TempDir()), rb: rb, buf: buf, defs: map[int]*cdef{}, bal: map[int]uint64{}}
+}
+
+func (w *world) withManager() *world {
+	m, err := contracts.NewManager(w.st, nil, nil, nil, nil, contracts.WithRejectAfter(w.rb), contracts.WithRevisionSubmissionBuffer(w.buf))
+	if err != nil {
+		w.t.Fatal(err)
+	}
+	w.mgr = m
+	return w
 }
 
 func (w *world) close() { w.st.Close() }
@@ -144,6 +159,7 @@ type block struct {
 	rev2                               [][2]uint64
 	succ2, renew2, fail2               []int
 	reject                             bool // run RejectContracts(h-rb) when h >= rb (what the manager does on apply)
+	rp1, rp2                           [][3]uint64 // contract, revision number on chain before, after (for synthetic consensus diffs)
 }
 
 func (b *block) changes(w *world) (sc contracts.StateChanges) {
@@ -193,10 +209,30 @@ func pairs(ps [][2]uint64) string {
 	return "[" + strings.Join(s, ",") + "]"
 }
 
+func triples(ps [][3]uint64) string {
+	s := make([]string, len(ps))
+	for i, p := range ps {
+		s[i] = fmt.Sprintf("%d:%d:%d", p[0], p[1], p[2])
+	}
+	return "[" + strings.Join(s, ",") + "]"
+}
+
 func (b *block) line(kind string) string {
-	return fmt.Sprintf("%s h=%d form1=%s rev1=%s succ1=%s fail1=%s form2=%s rev2=%s succ2=%s renew2=%s fail2=%s",
+	return fmt.Sprintf("%s h=%d form1=%s rev1=%s succ1=%s fail1=%s form2=%s rev2=%s succ2=%s renew2=%s fail2=%s rp1=%s rp2=%s",
 		kind, b.h, vhlib.FmtList(b.form1), pairs(b.rev1), vhlib.FmtList(b.succ1), vhlib.FmtList(b.fail1),
-		pairs(b.form2), pairs(b.rev2), vhlib.FmtList(b.succ2), vhlib.FmtList(b.renew2), vhlib.FmtList(b.fail2))
+		pairs(b.form2), pairs(b.rev2), vhlib.FmtList(b.succ2), vhlib.FmtList(b.renew2), vhlib.FmtList(b.fail2), triples(b.rp1), triples(b.rp2))
+}
+
+func parseTriples(xs []string) (out [][3]uint64) {
+	for _, x := range xs {
+		p := strings.Split(x, ":")
+		var t [3]uint64
+		for i := 0; i < 3 && i < len(p); i++ {
+			t[i], _ = strconv.ParseUint(p[i], 10, 64)
+		}
+		out = append(out, t)
+	}
+	return
 }
 
 func parsePairs(xs []string) (out [][2]uint64) {
@@ -222,7 +258,8 @@ func ints(xs []uint64) (out []int) {
 func parseBlock(op vhlib.ParsedLine) *block {
 	return &block{h: op.U64("h"), form1: ints(op.U64List("form1")), rev1: parsePairs(op.List("rev1")), succ1: ints(op.U64List("succ1")),
 		fail1: ints(op.U64List("fail1")), form2: parsePairs(op.List("form2")), rev2: parsePairs(op.List("rev2")),
-		succ2: ints(op.U64List("succ2")), renew2: ints(op.U64List("renew2")), fail2: ints(op.U64List("fail2"))}
+		succ2: ints(op.U64List("succ2")), renew2: ints(op.U64List("renew2")), fail2: ints(op.U64List("fail2")),
+		rp1: parseTriples(op.List("rp1")), rp2: parseTriples(op.List("rp2"))}
 }
 
 func bidx(h uint64) types.ChainIndex {
@@ -253,6 +290,183 @@ func (w *world) stepTx(tx index.UpdateTx, op chainOp) error {
 	return nil
 }
 
+// ---- level `mgr`: synthetic consensus updates through contracts.Manager.UpdateChainState
+
+func v1fc(rev uint64, hostValid, hostMissed uint64) types.FileContract {
+	return types.FileContract{RevisionNumber: rev,
+		ValidProofOutputs:  []types.SiacoinOutput{{Value: cur(5)}, {Value: cur(hostValid)}},
+		MissedProofOutputs: []types.SiacoinOutput{{Value: cur(5)}, {Value: cur(hostMissed)}, {Value: cur(0)}}}
+}
+
+func tripleFor(ts [][3]uint64, n int) (prev, next uint64) {
+	for _, t := range ts {
+		if int(t[0]) == n {
+			return t[1], t[2]
+		}
+	}
+	return 0, 0
+}
+
+// diffs builds the consensus element diffs a block with these events would carry. `missedOK` picks,
+// for a successful v1 resolution without proof, payouts with missed >= valid.
+func (w *world) diffs(b *block) (fces []consensus.FileContractElementDiff, v2 []consensus.V2FileContractElementDiff, res []types.V2FileContractResolutionType) {
+	for _, n := range b.form1 {
+		fces = append(fces, consensus.FileContractElementDiff{FileContractElement: types.FileContractElement{ID: cid(n), FileContract: v1fc(0, 10, 4)}, Created: true})
+	}
+	for _, r := range b.rev1 {
+		prev, next := tripleFor(b.rp1, int(r[0]))
+		nf := v1fc(next, 10, 4)
+		fces = append(fces, consensus.FileContractElementDiff{FileContractElement: types.FileContractElement{ID: cid(int(r[0])), FileContract: v1fc(prev, 10, 4)}, Revision: &nf})
+	}
+	for i, n := range b.succ1 {
+		d := consensus.FileContractElementDiff{FileContractElement: types.FileContractElement{ID: cid(n), FileContract: v1fc(1, 10, 4)}, Resolved: true, Valid: true}
+		if (int(b.h)+i)%2 == 1 {
+			// expired without proof but without a burn: missed host payout >= valid host payout
+			d.Valid = false
+			d.FileContractElement.FileContract = v1fc(1, 10, 10)
+		}
+		fces = append(fces, d)
+	}
+	for _, n := range b.fail1 {
+		fces = append(fces, consensus.FileContractElementDiff{FileContractElement: types.FileContractElement{ID: cid(n), FileContract: v1fc(1, 10, 4)}, Resolved: true, Valid: false})
+	}
+	fc2 := func(n int, rev uint64, missed uint64) types.V2FileContract {
+		fc := types.V2FileContract{RevisionNumber: rev}
+		if d, ok := w.defs[n]; ok {
+			fc = d.v2fc(rev)
+		}
+		fc.HostOutput.Value = cur(10)
+		fc.MissedHostValue = cur(missed)
+		return fc
+	}
+	add2 := func(d consensus.V2FileContractElementDiff, r types.V2FileContractResolutionType) {
+		v2 = append(v2, d)
+		res = append(res, r)
+	}
+	for _, r := range b.form2 {
+		add2(consensus.V2FileContractElementDiff{V2FileContractElement: types.V2FileContractElement{ID: cid(int(r[0])), V2FileContract: fc2(int(r[0]), r[1], 4)}, Created: true}, nil)
+	}
+	for _, r := range b.rev2 {
+		prev, next := tripleFor(b.rp2, int(r[0]))
+		nf := fc2(int(r[0]), next, 4)
+		add2(consensus.V2FileContractElementDiff{V2FileContractElement: types.V2FileContractElement{ID: cid(int(r[0])), V2FileContract: fc2(int(r[0]), prev, 4)}, Revision: &nf}, nil)
+	}
+	for i, n := range b.succ2 {
+		if (int(b.h)+i)%2 == 1 {
+			add2(consensus.V2FileContractElementDiff{V2FileContractElement: types.V2FileContractElement{ID: cid(n), V2FileContract: fc2(n, 1, 10)}}, &types.V2FileContractExpiration{})
+		} else {
+			add2(consensus.V2FileContractElementDiff{V2FileContractElement: types.V2FileContractElement{ID: cid(n), V2FileContract: fc2(n, 1, 4)}}, &types.V2StorageProof{})
+		}
+	}
+	for _, n := range b.renew2 {
+		add2(consensus.V2FileContractElementDiff{V2FileContractElement: types.V2FileContractElement{ID: cid(n), V2FileContract: fc2(n, 1, 4)}}, &types.V2FileContractRenewal{})
+	}
+	for _, n := range b.fail2 {
+		add2(consensus.V2FileContractElementDiff{V2FileContractElement: types.V2FileContractElement{ID: cid(n), V2FileContract: fc2(n, 1, 4)}}, &types.V2FileContractExpiration{})
+	}
+	return
+}
+
+type updJSON struct {
+	FileContractElementDiffs   []consensus.FileContractElementDiff   `json:"fileContractElementDiffs"`
+	V2FileContractElementDiffs []consensus.V2FileContractElementDiff `json:"v2FileContractElementDiffs"`
+	ChainIndexElement          types.ChainIndexElement               `json:"chainIndexElement"`
+	OldNumLeaves               uint64                                `json:"oldNumLeaves"`
+	NumLeaves                  uint64                                `json:"numLeaves"`
+}
+
+func (w *world) synthApply(b *block) (chain.ApplyUpdate, error) {
+	fces, v2, res := w.diffs(b)
+	idx := bidx(b.h)
+	js, err := json.Marshal(updJSON{FileContractElementDiffs: fces, V2FileContractElementDiffs: v2,
+		ChainIndexElement: types.ChainIndexElement{ID: idx.ID, ChainIndex: idx}})
+	if err != nil {
+		return chain.ApplyUpdate{}, err
+	}
+	var au consensus.ApplyUpdate
+	if err := json.Unmarshal(js, &au); err != nil {
+		return chain.ApplyUpdate{}, err
+	}
+	ds := au.V2FileContractElementDiffs() // the accessor returns the update's own slice: resolutions are patched in place
+	for i := range ds {
+		ds[i].Resolution = res[i]
+	}
+	return chain.ApplyUpdate{ApplyUpdate: au, State: consensus.State{Index: idx}}, nil
+}
+
+func (w *world) synthRevert(b *block) (chain.RevertUpdate, error) {
+	fces, v2, res := w.diffs(b)
+	js, err := json.Marshal(updJSON{FileContractElementDiffs: fces, V2FileContractElementDiffs: v2, NumLeaves: 1 << 40})
+	if err != nil {
+		return chain.RevertUpdate{}, err
+	}
+	var ru consensus.RevertUpdate
+	if err := json.Unmarshal(js, &ru); err != nil {
+		return chain.RevertUpdate{}, err
+	}
+	ds := ru.V2FileContractElementDiffs()
+	for i := range ds {
+		ds[i].Resolution = res[i]
+	}
+	// the reverted block sits at State.Index.Height + 1
+	return chain.RevertUpdate{RevertUpdate: ru, State: consensus.State{Index: bidx(b.h - 1)}}, nil
+}
+
+// doBatchMgr hands the whole batch (reverts first, then applies) to Manager.UpdateChainState
+func (w *world) doBatchMgr(tr *vhlib.Trace, ops []chainOp) bool {
+	var reverted []chain.RevertUpdate
+	var applied []chain.ApplyUpdate
+	var err error
+	for _, op := range ops {
+		if op.revert {
+			var ru chain.RevertUpdate
+			if ru, err = w.synthRevert(op.b); err == nil {
+				reverted = append(reverted, ru)
+			}
+		} else {
+			var au chain.ApplyUpdate
+			if au, err = w.synthApply(op.b); err == nil {
+				applied = append(applied, au)
+			}
+		}
+		if err != nil {
+			w.t.Fatal("synthetic update:", err)
+		}
+	}
+	p, msg := vhlib.Try(func() {
+		err = w.st.UpdateChainState(func(tx index.UpdateTx) error { return w.mgr.UpdateChainState(tx, reverted, applied) })
+	})
+	res := classify(p, msg, err)
+	if len(ops) > 1 {
+		tr.Line(fmt.Sprintf("begin n=%d", len(ops)), "")
+	}
+	for i, op := range ops {
+		kind := "apply"
+		if op.revert {
+			kind = "revert"
+		}
+		r := "ok"
+		if res != "ok" {
+			// the manager processes the batch in one call: the failing step is not observable, attribute it to the first
+			r = "skipped"
+			if i == 0 {
+				r = res
+			}
+		}
+		tr.Count(kind + ":mgr:" + r)
+		tr.Line(op.b.line(kind), "res="+r)
+	}
+	if len(ops) > 1 {
+		commit := "ok"
+		if res != "ok" {
+			commit = "rolledback"
+		}
+		tr.Line("commit", "res="+commit)
+	}
+	w.observe(tr)
+	return res == "ok"
+}
+
 func classify(p bool, msg string, err error) string {
 	switch {
 	case p && strings.Contains(msg, "negative_stat"):
@@ -267,6 +481,9 @@ func classify(p bool, msg string, err error) string {
 
 // doBatch executes ops in ONE UpdateChainState transaction and reports per-step results
 func (w *world) doBatch(tr *vhlib.Trace, ops []chainOp) bool {
+	if w.mgr != nil {
+		return w.doBatchMgr(tr, ops)
+	}
 	results := make([]string, len(ops))
 	for i := range results {
 		results[i] = "skipped"
@@ -652,6 +869,10 @@ func (g *gen) addContract() {
 	g.next++
 	t := g.tip()
 	d := &cdef{n: g.next, v2: r.Chance(1, 2), rev: uint64(1 + r.Intn(3)), locked: uint64(r.Intn(50))}
+	if r.Chance(1, 3) {
+		// revision numbers around the byte boundary (the column is a little-endian BLOB) and large ones
+		d.rev = vhlib.Pick[uint64](r, 255, 256, 257, 258, 300, 65536, 1<<40)
+	}
 	// negotiation height around the tip so that the reject buffer boundary is crossed in both directions
 	switch r.Intn(4) {
 	case 0:
@@ -724,12 +945,16 @@ func (g *gen) wfBlock() *block {
 				nr := v.chainRev + 1 + uint64(r.Intn(2))
 				if r.Chance(1, 2) {
 					nr = d.rev // the host's latest revision gets confirmed
+				} else if d.rev > 200 && r.Chance(1, 2) {
+					nr = vhlib.Pick[uint64](r, 1, 200, 255, 256, d.rev-1) // an older revision, possibly just below a byte boundary
 				}
 				if nr > v.chainRev {
 					if d.v2 {
 						b.rev2 = append(b.rev2, [2]uint64{uint64(n), nr})
+						b.rp2 = append(b.rp2, [3]uint64{uint64(n), v.chainRev, nr})
 					} else {
 						b.rev1 = append(b.rev1, [2]uint64{uint64(n), nr})
+						b.rp1 = append(b.rp1, [3]uint64{uint64(n), v.chainRev, nr})
 					}
 				}
 			case 2:
@@ -831,8 +1056,12 @@ func genHistory(t *testing.T, tr *vhlib.Trace, r *vhlib.Rand, n int, illRate int
 	buf := uint64(1 + r.Intn(4))
 	w := newWorld(t, rb, buf)
 	defer w.close()
+	if levelMgr {
+		w.withManager()
+		illRate = 0
+	}
 	g := &gen{r: r, w: w, tr: tr, addedAt: map[int]int{}}
-	tr.Line(fmt.Sprintf("reset rb=%d buf=%d", rb, buf), "")
+	tr.Line(fmt.Sprintf("reset rb=%d buf=%d level=%s", rb, buf, map[bool]string{false: "store", true: "mgr"}[levelMgr]), "")
 	g.addContract()
 	for i := 0; i < n; i++ {
 		x := r.Intn(100)
@@ -1022,6 +1251,9 @@ func replay(t *testing.T, tr *vhlib.Trace, ops []vhlib.ParsedLine) {
 				w.close()
 			}
 			w = newWorld(t, op.U64("rb"), op.U64("buf"))
+			if op.Args["level"] == "mgr" {
+				w.withManager()
+			}
 			stack, addedAt = nil, map[int]int{}
 			tr.Line(op.Raw, "")
 		case "add":
@@ -1108,6 +1340,7 @@ func TestEngine(t *testing.T) {
 		replay(t, tr, ops)
 		return
 	}
+	levelMgr = cfg.Extra["level"] == "mgr"
 	ill := 10
 	if v, ok := cfg.Extra["ill"]; ok {
 		ill, _ = strconv.Atoi(v)
